@@ -10,6 +10,9 @@ import (
 
 	colarspb "github.com/open-telemetry/otel-arrow/api/experimental/arrow/v1"
 	"github.com/open-telemetry/otel-arrow/pkg/otel/arrow_record"
+	"go.opentelemetry.io/collector/pdata/plog"
+	"go.opentelemetry.io/collector/pdata/pmetric"
+	"go.opentelemetry.io/collector/pdata/ptrace"
 	"google.golang.org/protobuf/proto"
 )
 
@@ -175,6 +178,7 @@ func runFaults(o opts, out *Output) {
 		pr := newProducerRun()
 		var bars []*colarspb.BatchArrowRecords
 		var mainRows []int
+		var inKeys [][]string
 		nb := 1 + r.Intn(3)
 		for len(bars) < nb+2 {
 			data := genAny(g, r, sig)
@@ -187,6 +191,14 @@ func runFaults(o opts, out *Output) {
 			}
 			bars = append(bars, res.Bar)
 			mainRows = append(mainRows, len(res.Recs[0].Table.Rows))
+			switch d := data.(type) {
+			case ptrace.Traces:
+				inKeys = append(inKeys, tracesItems(d).Keys)
+			case plog.Logs:
+				inKeys = append(inKeys, logsItems(d).Keys)
+			case pmetric.Metrics:
+				inKeys = append(inKeys, metricsItems(d).Keys)
+			}
 		}
 		pr.p.Close()
 		if len(bars) < 3 {
@@ -344,6 +356,11 @@ func runFaults(o opts, out *Output) {
 			}
 			if len(fl) == 0 && (res.Class != "ok" || res.Items != mainRows[len(bars)-1]) {
 				out.Violation("C07", "clean-batch-not-decoded", fmt.Sprintf("the unaltered batch was not decoded completely: %s items=%d want=%d %s", res.Class, res.Items, mainRows[len(bars)-1], res.Msg), replay)
+			} else if len(fl) == 0 && len(inKeys) >= len(bars) {
+				// "returns all of its telemetry": the content too, with the documented normalisations (Go mirror of Otlp/Equiv.v)
+				if d := diffKeys(inKeys[len(bars)-1], res.Trees.Keys); d != "" {
+					out.Violation("C07", "clean-batch-content-differs", "the unaltered well-formed batch on a healthy stream was decoded to different telemetry: "+d, replay)
+				}
 			}
 			tag := "faults=" + strings.Join(func() []string {
 				var ks []string
